@@ -130,6 +130,12 @@ struct snapraid_worker {
 #define IO_WRITER_ERROR_MAX (-IO_WRITER_ERROR_BASE)
 
 /**
+ * Max number of positions with a write error that can be kept.
+ * The writers of all the parity levels can fail for all the queued blocks.
+ */
+#define IO_WRITER_ERROR_POSITION_MAX (IO_MAX * LEV_MAX)
+
+/**
  * Reader.
  *
  * This represents the pool of worker threads dedicated to read
@@ -290,6 +296,13 @@ struct snapraid_io {
 	int writer_error[IO_WRITER_ERROR_MAX];
 
 	/**
+	 * Positions of the blocks for which a parity write failed, and not yet returned
+	 * by io_writer_error_position().
+	 */
+	block_off_t writer_error_position[IO_WRITER_ERROR_POSITION_MAX];
+	unsigned writer_error_position_mac;
+
+	/**
 	 * Bandwidth
 	 */
 	struct snapraid_bw bw;
@@ -394,6 +407,18 @@ extern void (*io_write_preset)(struct snapraid_io* io, block_off_t blockcur, int
  * \param writer_error Return the number of errors. Vector of IO_WRITER_ERROR_MAX elements.
  */
 extern void (*io_write_next)(struct snapraid_io* io, block_off_t blockcur, int skip, int* writer_error);
+
+/**
+ * Get the positions of the blocks for which a parity write failed.
+ *
+ * The errors of a block are known only when its write is really done, that with threads
+ * could be later than the io_write_next() call of the block, and even at the io_stop() time.
+ *
+ * \param position_map Vector filled with the positions.
+ * \param position_max Number of elements in the vector.
+ * \return The number of positions stored, that are then forgotten.
+ */
+unsigned io_writer_error_position(struct snapraid_io* io, block_off_t* position_map, unsigned position_max);
 
 /**
  * Refresh the number of cached blocks for all data and parity disks.
